@@ -63,7 +63,7 @@ def mechanical_variants() -> List[Tuple]:
     out = [(f"mechanical rewrite of the whole package: {m}", "@mech", m, 1, None) for m in mechanical.MODES if m != "rename"]
     out += [(f"mechanical rewrite of the whole package: rename locals (seed {sd}, p={p})", "@mech", "rename", (sd, p), None)
             for sd, p in ((1, 1.0), (2, 0.5), (3, 0.5))]
-    out.append(("mechanical rewrite of the whole package: mirror + augexpand + reorder + params + rename", "@mech", "all", (4, 0.7), None))
+    out.append(("mechanical rewrite of the whole package: mirror + augexpand + reorder + params + attrs + rename", "@mech", "all", (4, 0.7), None))
     return out
 
 
@@ -73,7 +73,7 @@ def _one_mech(prop, root, name, mode, arg, base_keys) -> Dict[str, Any]:
     try:
         shutil.copytree(os.path.join(root, "basana"), os.path.join(tmp, "basana"), ignore=shutil.ignore_patterns("__pycache__"))
         if mode == "all":
-            for m in ("mirror", "augexpand", "reorder", "params"):
+            for m in ("mirror", "augexpand", "reorder", "params", "attrs"):
                 mechanical.rewrite(tmp, m)
             mechanical.rewrite(tmp, "rename", arg[0], arg[1])
         elif mode == "rename":
